@@ -204,7 +204,8 @@ class Reply(object):
 
     @message.setter
     def message(self, value):
-        if value:
+        code_0 = self._code and self._code[0]
+        if value and (not code_0 or code_0 in ('2', '4', '5')):
             match = message_esc_pattern.match(value)
             if match:
                 self._message = value[match.end(0):]
